@@ -160,6 +160,11 @@ static inline const char *path_remove_prefix(const char *path,
 
         if (cmp == 0)
         {
+            // An empty node equals the root node of the other string:
+            // nothing is left to remove (and path_iterate("") is NULL).
+            if (*path == 0 || *prefix == 0)
+                break;
+
             path = path_iterate(path);
             prefix = path_iterate(prefix);
         }
